@@ -248,7 +248,11 @@ def d3(prog, ctx):
     else:
         ctx.ok("D3", "%s:%d" % (AP, single[0].lineno), "unsplit region forwards the whole storage")
     p = prog.func(AP, "AlignmentCollector.process")
-    tail = p.body[-1]
+    # the statement after the record loop that forwards what is still in the storage (anything may follow it: logging, statistics)
+    rec_loops = [i for i, st_ in enumerate(p.body) if isinstance(st_, (ast.For, ast.While)) and "forward_alignments" in src(st_)]
+    after = p.body[rec_loops[-1] + 1:] if rec_loops else p.body
+    flushes = [st_ for st_ in after if "forward_alignments" in src(st_)]
+    tail = flushes[-1] if flushes else p.body[-1]
     okt = isinstance(tail, ast.If) and src(tail.test) == "alignment_storage.region" and "self.forward_alignments(alignment_storage)" in src(tail)
     if not okt and not (isinstance(tail, ast.If) and "forward_alignments" in src(tail)):
         ctx.fail("D3", p, p._qualname, "final flush", "the last region is not flushed after the record loop")
@@ -364,7 +368,14 @@ def d5(prog, ctx):
         return
     if len(loops) < 2:
         raise AnalysisError("find_duplicates: comparison loops not found")
-    jumps = [x for l in loops for x in ast.walk(l) if isinstance(x, (ast.Break, ast.Return))]
+    # the comparison loops: a loop nested in another loop together with its host (a separate scan before them - e.g. a fast path that
+    # returns when all records have distinct keys - is not part of the pairwise search)
+    nested = [l for l in loops if any(isinstance(x, ast.For) and x is not l for x in ast.walk(l))]
+    cmp_loops = [l for l in loops if l in nested or any(l is not h and any(x is l for x in ast.walk(h)) for h in nested)]
+    if not cmp_loops:
+        ctx.undecided("D5", fd, fd._qualname, "no nested pair of comparison loops found in find_duplicates")
+        return
+    jumps = [x for l in cmp_loops for x in ast.walk(l) if isinstance(x, (ast.Break, ast.Return))]
     if jumps:
         ctx.fail("D5", jumps[0], fd._qualname, src(jumps[0]), "the duplicate search leaves a loop early: with three or more copies of a "
                  "record (read seen in three sub-regions) only some are discarded and identical records are reported twice")
@@ -618,7 +629,8 @@ def d6(prog, ctx):
             continue
         n_paths += 1
         rv = p.exit_node.value
-        if isinstance(rv, ast.List) and len(rv.elts) == 1 and src(rv.elts[0]) == g:
+        if isinstance(rv, ast.List) and len(rv.elts) == 1 and (src(rv.elts[0]) == g or (
+                isinstance(rv.elts[0], ast.Tuple) and [src(e_) for e_ in rv.elts[0].elts] == ["%s[0]" % g, "%s[1]" % g])):
             continue                                     # the whole cluster as one region
         if not (isinstance(rv, ast.Name) and rv.id == L):
             fail(p.exit_node, src(p.exit_node), "returns something that is neither the region list nor [%s]" % g)
